@@ -5,9 +5,10 @@ package rueidis
 import (
 	"context"
 	"fmt"
+	"math/rand/v2"
 	"os"
 	"runtime"
-	"math/rand/v2"
+	"strconv"
 	"strings"
 	"testing"
 	"testing/synctest"
@@ -75,12 +76,26 @@ func expectedReply(argv []string) (resp.Value, bool) {
 	switch strings.ToUpper(argv[0]) {
 	case "VTAG":
 		if len(argv) >= 3 {
-			return fakeredis.BuildShape(argv[1], argv[2])
+			uid := argv[1]
+			if len(argv) > 3 {
+				if n, err := strconv.Atoi(argv[3]); err == nil && n > 0 {
+					uid = fakeredis.PadUID(uid, n)
+				}
+			}
+			return fakeredis.BuildShape(uid, argv[2])
 		}
 	case "VKTAG":
 		if len(argv) >= 4 {
-			return fakeredis.BuildShape(argv[2], argv[3])
+			uid := argv[2]
+			if len(argv) > 4 {
+				if n, err := strconv.Atoi(argv[4]); err == nil && n > 0 {
+					uid = fakeredis.PadUID(uid, n)
+				}
+			}
+			return fakeredis.BuildShape(uid, argv[3])
 		}
+	case "VARGS":
+		return resp.Int(int64(len(argv))), true
 	case "VWTAG":
 		if len(argv) >= 3 {
 			return resp.Bulk("w:" + argv[2]), true
